@@ -386,10 +386,16 @@ struct World
 		r->aux = sl;
 		accept_slot = sl; accept_variant = variant;
 		if (variant == 0) acceptor->async_accept(*slots[sl], Tracked(r, this));
-		else if (variant == 1) acceptor->async_accept(*slots[sl], peer_ep[sl], Tracked(r, this));
+		else if (variant == 1)
+		{
+			// the endpoint the peer is reported in belongs to this one accept: it goes away with its completion
+			accept_eps[r->id].reset(new tcp::endpoint);
+			acceptor->async_accept(*slots[sl], *accept_eps[r->id], Tracked(r, this));
+		}
 		else acceptor->async_accept(Tracked(r, this));
 	}
 	int accept_slot = 0, accept_variant = 0;
+	std::map<int, std::unique_ptr<tcp::endpoint>> accept_eps;
 	std::vector<std::unique_ptr<tcp::socket>> spare;
 	void accepted_socket(int sl, tcp::socket s)
 	{
@@ -565,7 +571,12 @@ struct World
 				break;
 			case I_CLOSE:
 				if (o.kind == O_CLIENT) clients[o.idx]->close(ec);
-				else if (o.kind == O_ACCEPTOR) acceptor->close(ec);
+				else if (o.kind == O_ACCEPTOR)
+				{
+					// either overload closes
+					if (iv_k & 1) { try { acceptor->close(); } catch (std::exception const&) {} }
+					else acceptor->close(ec);
+				}
 				else if (o.kind == O_SLOT) slots[o.idx]->close(ec);
 				else if (o.kind == O_UDP) udps[o.idx]->close(ec);
 				break;
@@ -714,7 +725,7 @@ struct World
 			if (r->invoked > 1) fail(std::string("handler.twice.") + k_op_names[r->op], who + ": handler invoked " + std::to_string(r->invoked) + " times");
 			if (r->discarded) fail(std::string("handler.discarded.") + k_op_names[r->op], who + ": handler destroyed without being invoked while the simulation kept running");
 		}
-		if (c04 && iv_kind != I_NONE && iv_kind != I_THROW && iv_kind != I_MOVE)
+		if (iv_kind != I_NONE && iv_kind != I_THROW && iv_kind != I_MOVE)
 			for (int id : iv_outstanding)
 			{
 				Rec const& r = *recs[size_t(id)];
@@ -776,6 +787,7 @@ struct World
 		for (auto& s : slots) s.reset();
 		spare.clear();
 		acceptor.reset();
+		accept_eps.clear();
 		for (auto& u : udps) u.reset();
 		res_t.reset(); res_u.reset();
 		z_acc.reset(); z_into.reset(); z_sock.reset(); z_udp.reset(); z_timer.reset();
@@ -798,6 +810,7 @@ void Tracked::fire(error_code const& ec)
 	r->t_done = now_ns();
 	if (w->initiating > 0) r->inline_call = true;
 	armed = false;
+	if (r->op == P_ACCEPT) w->accept_eps.erase(r->id);
 	// a server that greets: write on the accepted socket as soon as the accept completes
 	if (r->op == P_ACCEPT && !ec && r->aux >= 0 && w->plan.c("accept_write") && w->slots[r->aux] && w->slots[r->aux]->is_open())
 		w->start_write(k_nc + r->aux, w->plan.c("accept_write"));
